@@ -8,7 +8,7 @@ use crate::tr;
 
 impl<'a> World<'a> {
     fn k_ms(&self) -> u64 {
-        self.cfg.keep_alive_s * 1000
+        self.k_eff_ms.unwrap_or(self.cfg.keep_alive_s * 1000)
     }
 
     pub fn c18_setup(&mut self) {
@@ -21,6 +21,15 @@ impl<'a> World<'a> {
                 if k > 0 && self.ch.coin(1, 3) {
                     self.c18_break_at_ms = Some(self.ch.pick((8 * k) as u32 + 1) as u64);
                     self.c18_break_on_ping = self.ch.coin(1, 2);
+                } else if (2000..=10_000).contains(&k) && self.ch.coin(1, 4) {
+                    // sustained traffic: the request channel is never empty when
+                    // the event loop looks, and the user's loop takes up to K/200
+                    // between two polls. The timer must still get its turn: with
+                    // a fair select it does within a few polls, 100 polls (K/2)
+                    // are allowed
+                    self.c18_busy = true;
+                    self.end_ms = 4 * k + 50;
+                    self.rep.probe("c18_busy_run");
                 }
             }
             C18Mode::Silent | C18Mode::SilentHalfOpen | C18Mode::SilentStalled => {
@@ -86,6 +95,15 @@ impl<'a> World<'a> {
                 return;
             }
         }
+        if self.c18_busy {
+            for _ in 0..=self.cfg.cap {
+                if !self.handle.try_publish("t/busy", 0, b"busy") {
+                    break;
+                }
+            }
+            self.run_due_pub();
+            return;
+        }
         // light traffic in either direction
         let n = self.ch.pick(3);
         for _ in 0..n {
@@ -115,6 +133,24 @@ impl<'a> World<'a> {
         if !self.silent {
             while self.script_ack(idx, true) {}
         }
+    }
+
+    /// Allowance for the ping cadence in a busy run (see `c18_setup`).
+    pub fn c18_slack(&self) -> u64 {
+        if self.c18_busy {
+            self.k_ms() / 2
+        } else {
+            0
+        }
+    }
+
+    /// The pause of the user's loop before the next poll of a busy run.
+    pub fn c18_busy_pause(&mut self) -> Option<std::time::Duration> {
+        if !self.c18_busy || self.c18_done {
+            return None;
+        }
+        let dmax = (self.k_ms() / 200).max(1) as u32;
+        Some(std::time::Duration::from_millis(self.ch.pick(dmax + 1) as u64))
     }
 
     /// The injected connection failure of Answer mode.
@@ -155,7 +191,7 @@ impl<'a> World<'a> {
         }
         let last = self.conns[idx].last_ping_ms.unwrap_or(self.conns[idx].connack_ms);
         self.conns[idx].last_ping_ms = Some(now);
-        if !self.writes_refused && now - last > k + TOL_MS {
+        if !self.writes_refused && now - last > k + TOL_MS + self.c18_slack() {
             let first = self.conns[idx].pings == 1;
             self.violate(
                 format!("ping_late:{}", if first { "first" } else { "gap" }),
@@ -180,7 +216,7 @@ impl<'a> World<'a> {
                     if let Some(idx) = self.cur() {
                         if self.conns[idx].connack_sent {
                             let last = self.conns[idx].last_ping_ms.unwrap_or(self.conns[idx].connack_ms);
-                            if now > last + k + TOL_MS {
+                            if now > last + k + TOL_MS + self.c18_slack() {
                                 self.violate(
                                     "ping_late:none_sent".into(),
                                     format!("no PINGREQ between {last} ms and {now} ms with keep-alive {k} ms on an established, continuously polled connection"),
@@ -310,7 +346,7 @@ impl<'a> World<'a> {
     pub fn c18_finish(&mut self) {
         let pings: u32 = self.conns.iter().map(|c| c.pings).sum();
         self.rep.nontrivial = match self.cfg.c18 {
-            C18Mode::Answer => pings >= 19 || (self.detected && pings >= 4),
+            C18Mode::Answer => pings >= 19 || (self.detected && pings >= 4) || (self.c18_busy && pings >= 3),
             C18Mode::Silent | C18Mode::SilentHalfOpen | C18Mode::SilentStalled => self.detected,
             C18Mode::Zero => self.now_ms() >= 600_000,
             _ => self.detected,
